@@ -2,6 +2,7 @@
    Only statements, [exact] and [Print Assumptions] live here. *)
 From Coq Require Import List ZArith Permutation.
 From SR Require Import Model.Queue Model.QueueHeap Proofs.QueueProofs Proofs.QueueHeapProofs Proofs.QueueFuel.
+From SR Require Gen.FormulasQueue Proofs.FormulasQueueProofs.
 Import ListNotations.
 Open Scope Z_scope.
 
@@ -92,6 +93,17 @@ Theorem C10_drain_never_runs_out_of_fuel :
   forall fuel s, J s -> (mu s < fuel)%nat -> drain fuel s <> None.
 Proof. exact drain_has_enough_fuel. Qed.
 Print Assumptions C10_drain_never_runs_out_of_fuel.
+
+(* The translator tie: the queue order (priority, then insertion id), the priorities of inserted
+   actions and their abort flags are EQUAL to the definitions go2coq generates from queue/queue.go,
+   info/queue.go and pkg/model (Gen/FormulasQueue.v). *)
+Theorem C10_model_formulas_are_the_source :
+  (forall a b, FormulasQueue.queue_less a b = less a b) /\
+  char_insert_action = FormulasQueue.InsertPriority_CharInsertAction /\
+  enemy_insert_action = FormulasQueue.InsertPriority_EnemyInsertAction /\
+  action_abort_flags = [FormulasQueue.BehaviorFlag_STAT_CTRL; FormulasQueue.BehaviorFlag_DISABLE_ACTION].
+Proof. exact FormulasQueueProofs.C10_formulas_hold. Qed.
+Print Assumptions C10_model_formulas_are_the_source.
 
 Theorem C10_nonvacuous : exists s,
   top_run 50 (sim_init demo_units []) demo_ops = Some s /\
